@@ -253,6 +253,13 @@ class IndexObj:
     def getattr_(self, ev, attr, lineno):
         if attr == "values":
             return self.arr
+        if attr in ("max", "min"):
+            from . import npmodel
+
+            class _M:
+                def call(_s, ev_, args, kwargs, lineno_):
+                    return npmodel.reduce_extreme(ev_, attr, self.arr)
+            return _M()
         raise Unsupported("index attribute %s" % attr)
 
     def getitem(self, ev, idx, lineno):
